@@ -587,15 +587,19 @@ def maxEnd : List Note → Rat → Rat
   | [], m => m
   | n :: r, m => maxEnd r (if m < n.end_ then n.end_ else m)
 
+/-- end of a section: the next annotation's time, `total_time` for the last one -/
+def nextStart (rest : List (Rat × Int)) (total : Rat) : Rat :=
+  match rest with
+  | (t, _) :: _ => t
+  | [] => total
+
 /-- the per-section table of expand_section_groups: id ↦ (notes, subsequence total_time, duration);
 sections are processed in order, a later section with the same id replaces the earlier one -/
 def sectionTable (R : Rat → Rat) (sorted : List Note) (total : Rat) :
     List (Rat × Int) → List (Int × (List Note × Rat × Rat)) → Except Err (List (Int × (List Note × Rat × Rat)))
   | [], acc => .ok acc
   | (s, sid) :: rest, acc =>
-    let e := match rest with
-      | (t, _) :: _ => t
-      | [] => total
+    let e := nextStart rest total
     if e < s then .error (.esc "ValueError")
     else if total ≤ s then .error (.esc "ValueError")
     else
